@@ -90,6 +90,11 @@ hwloc_internal_cpukinds_restrict(hwloc_topology_t topology)
       memmove(kind, kind+1, (topology->nr_cpukinds - i - 1)*sizeof(*kind));
       i--;
       topology->nr_cpukinds--;
+      /* clear the slot that was vacated at the end of the array,
+       * hwloc_internal_cpukinds_register() expects unused slots to be zeroed
+       * (it appends infos to new kinds without initializing them).
+       */
+      memset(&topology->cpukinds[topology->nr_cpukinds], 0, sizeof(*kind));
       removed = 1;
     }
   }
